@@ -242,7 +242,15 @@ def evaluate(case):
             NV.append((c[1], toks[0], norm))
     no_same_components = "constant_multiplier" in fields and "register_multiplier" not in fields
     before = len(ev.deviations)
-    exp, spans, rep = compare(ev, pattern, None, modes=("list",), text=text, NV=NV)
+    # what a $deref accepts does not depend on the full-match flags (they are about plain names): a third of the cases whose only
+    # described operand is the $deref run with operands-full-match, another third with both flags (selector: a hash of the fields)
+    import zlib
+
+    sel = zlib.crc32(repr(sorted((k, str(v)) for k, v in fields.items())).encode()) % 3 if pos == 1 else 0
+    mn_f, op_f = [(None, None), (None, True), (True, True)][sel]
+    if sel:
+        ev.tags.append("flags=" + ("operands-full" if sel == 1 else "both-full"))
+    exp, spans, rep = compare(ev, pattern, None, mn_f, op_f, modes=("list",), text=text, NV=NV)
     if no_same_components:
         # rejecting such a rule is accepted; silently matching something is not
         ev.deviations[before:] = [d for d in ev.deviations[before:] if d["kind"] != "exception"]
